@@ -21,10 +21,13 @@ META = {
             "the real parsec_redistribute is run on marker-filled block-cyclic matrices (random tile sizes, shapes, "
             "displacements, grids, 1-4 processes, both the general and the reshuffle taskpool), the target is gathered and "
             "TLC checks every element: window elements equal the corresponding source elements, all others are unchanged.",
-    "note": "Model box: tile sizes <= 3 (4 thorough), window <= 6 (8), displacements <= 4 (6), one dimension (the code uses "
-            "the same arithmetic for rows and columns). Real runs: seeded random, matrices <= 24x24 elements, tile sizes "
-            "1..7, 2D block-cyclic source and target (SBC/tabular distributions not exercised), 1/2/4 processes, quick 36 "
-            "calls, thorough ~400. Trusted: TLC, the MPI_Reduce gather of the target matrix.",
+    "note": "Model box: tile sizes <= 3 (4 thorough), window <= 6 (8), displacements <= 4 (6), plus the 'wide' box (source "
+            "tiles 1..2, target tiles 4x or 5x the source tile, window up to 3 target tiles, every target displacement "
+            "inside a tile), one dimension (the code uses the same arithmetic for rows and columns; the model includes "
+            "where Update places each piece inside the target tile). Real runs: seeded random, matrices <= 24x24 elements, "
+            "tile sizes 1..7, plus a class with non-square 1x2 / 2x1 source tiles and target tiles covering 4-5 x 3-5 "
+            "source tiles (matrices <= 30x30), 2D block-cyclic source and target (SBC/tabular distributions not "
+            "exercised), 1/2/4 processes, quick 43 calls, thorough ~470. Trusted: TLC, the MPI_Reduce gather of the target matrix.",
     "technique": "TLA+ function-style spec (TLC box on the index arithmetic) + real runs validated element by element",
 }
 
@@ -71,6 +74,32 @@ def gen(rng, grids, maxb, reshuffle):
             "sr": sr, "sc": sc, "diY": diY, "djY": djY, "diT": diT, "djT": djT}
 
 
+def gen_wide(rng, grids):
+    """Small NON-SQUARE source tiles gathered by big target tiles: a target tile covers >= 4 source tile rows and >= 3
+    source tile columns (so Update has north / west / >= 2x1 inner / east / south pieces and the second inner row and
+    column are placed with a non-zero multiple of the source tile size); the window spans >= 2 target tiles in each
+    dimension.  General taskpool by construction (tile sizes differ)."""
+    (PY, QY), (PT, QT) = rng.choice(grids), rng.choice(grids)
+    mbY, nbY = rng.choice([(1, 2), (2, 1)])
+    rr, rc = rng.choice([(4, 3), (4, 4), (5, 3), (4, 5), (5, 4)])
+    mbT, nbT = mbY * rr, nbY * rc
+    mtT, ntT = rng.randint(2, 3), rng.randint(2, 3)
+    LMT, LNT = mtT * mbT, ntT * nbT
+    sr, sc = rng.randint(2 * mbT, LMT), rng.randint(2 * nbT, LNT)
+    # the source is at least as large as the window, plus a margin so that the window can sit anywhere
+    mtY = (sr + rng.randint(0, 3) + mbY - 1) // mbY
+    ntY = (sc + rng.randint(0, 3) + nbY - 1) // nbY
+    LMY, LNY = mtY * mbY, ntY * nbY
+    if rng.random() < 0.4:      # everything aligned at the origin (the plainest "gather" shape)
+        diY = djY = diT = djT = 0
+    else:
+        diY, djY = rng.randint(0, LMY - sr), rng.randint(0, LNY - sc)
+        diT, djT = rng.randint(0, LMT - sr), rng.randint(0, LNT - sc)
+    return {"mbY": mbY, "nbY": nbY, "mtY": mtY, "ntY": ntY, "PY": PY, "QY": QY, "kpY": rng.randint(1, 2), "kqY": rng.randint(1, 2),
+            "mbT": mbT, "nbT": nbT, "mtT": mtT, "ntT": ntT, "PT": PT, "QT": QT, "kpT": rng.randint(1, 2), "kqT": rng.randint(1, 2),
+            "sr": sr, "sc": sc, "diY": diY, "djY": djY, "diT": diT, "djT": djT}
+
+
 def run_group(ctx, exe, scns, nranks, cores, tag, timeout=600):
     sp = os.path.join(ctx.scratch, "rd-%s.txt" % tag)
     with open(sp, "w") as f:
@@ -97,18 +126,22 @@ def run(ctx):
     rng = ctx.rng
     box = {"MaxB": 3, "MaxSize": 6, "MaxDis": 4} if ctx.quick else {"MaxB": 4, "MaxSize": 8, "MaxDis": 6}
     mod, cfg = mcgen.write_mc(d, "rdbox", "Redistribute", box,
-                              invariants=("PiecesPartitionWindow", "GetsizeIsOverlap", "ReshuffleWholeTiles"))
-    ctx.tlc_check(d, mod, cfg, must_cover=("NewGeneral", "NewReshuffle"), workers=2, timeout=1500)
+                              invariants=("PiecesPartitionWindow", "GetsizeIsOverlap", "ReshuffleWholeTiles",
+                                          "PlacementIsExact"))
+    ctx.tlc_check(d, mod, cfg, must_cover=("NewGeneral", "NewReshuffle", "NewGeneralWide"), workers=2, timeout=1500)
     ctx.exhaustive = True
     n = 12 if ctx.quick else 130
     maxb = 5 if ctx.quick else 7
     groups = [("r1", 1, 2, [(1, 1)]), ("r2", 2, 2, [(2, 1), (1, 2)]), ("r4", 4, 1, [(2, 2), (4, 1), (1, 4)])]
+    nwide = {"r1": 4, "r2": 3} if ctx.quick else {"r1": 30, "r2": 30, "r4": 20}
     exs = []
     for tag, nr, cores, grids in groups:
         scns = [gen(rng, grids, maxb, True if k % 5 in (1, 3) else ("near" if k % 5 in (2, 4) else False)) for k in range(n)]
-        got = run_group(ctx, exe, scns, nr, cores, tag)
+        wide = [gen_wide(rng, grids) for _ in range(nwide.get(tag, 0))]
+        got = run_group(ctx, exe, scns + wide, nr, cores, tag)
         exs.extend(got)
         ctx.extra["calls_" + tag] = len(got)
+        ctx.extra["wide_calls_" + tag] = len(wide)
     ctx.evaluations = len(exs)
     paths = [e[0].get("path") for e in exs if e and e[0].get("e") == "redist"]
     ctx.extra["general_path_calls"] = paths.count("general")
